@@ -477,6 +477,17 @@ fn main() {
                 rep.violations.extend(st.violations);
                 rep.add_part(st.part);
             }
+            {
+                // request / reply with the replying stream dropped while the reply is still
+                // queued; round trips above the retransmit threshold, so duplicates of data that
+                // has arrived reach the lingering socket; fixed latency, no loss
+                let mut d = vx_core::DfsConfig::new("fixed-latency-grid-reply-then-drop", 0);
+                d.wall = wall;
+                let thorough = tier == Tier::Thorough;
+                let st = vx_core::explore_dfs(&d, move |ch| fixedlat::reply_then_drop_scenario(ch, thorough));
+                rep.violations.extend(st.violations);
+                rep.add_part(st.part);
+            }
             rep.finish();
         }
         "C16" => {
@@ -713,6 +724,19 @@ fn replay(path: &str) {
                 for a in &v.actions {
                     println!("  {a}");
                 }
+                println!("VIOLATION clause={} : {}", v.clause, v.detail);
+                std::process::exit(1);
+            }
+            None => println!("no violation on this execution"),
+        }
+        return;
+    }
+    if prop == "C06" && scenario.starts_with("c06-reply-then-drop") {
+        println!("replaying {prop}: {scenario}");
+        let mut ch = vx_core::Chooser::from_choices(&choices);
+        let e = fixedlat::reply_then_drop_scenario(&mut ch, false);
+        match e.violation {
+            Some(v) => {
                 println!("VIOLATION clause={} : {}", v.clause, v.detail);
                 std::process::exit(1);
             }
